@@ -275,6 +275,61 @@ func runC04(r *core.Run) {
 		s.Transitions.Store(s.Evals.Load())
 		s.Done()
 	}
+	// (1c) size ladders inside a reference and in front of the scheme: one letter (or the colon) of the scheme written as a
+	// numeric reference with EVERY number of leading zeros 0..P, and EVERY number 0..P of leading spaces / control bytes
+	// (any look-ahead window, digit limit or scratch buffer in the predicate is crossed at every phase)
+	{
+		maxP := core.Pick(r, 300, 1100)
+		for _, k := range urlConstructs {
+			parts := strings.Split(k.tmpl, "§")
+			cfg := core.MustCfg(k.exts[len(k.exts)-1])
+			var urls []string
+			for _, sc := range c04Schemes[:4] {
+				for _, pos := range []int{0, len(sc[0]) - 1} {
+					c := sc[0][pos]
+					for z := 0; z <= maxP; z++ {
+						zeros := strings.Repeat("0", z)
+						urls = append(urls,
+							sc[0][:pos]+"&#x"+zeros+fmt.Sprintf("%x", c)+";"+sc[0][pos+1:]+sc[1],
+							sc[0][:pos]+"&#X"+zeros+fmt.Sprintf("%X", c)+";"+sc[0][pos+1:]+sc[1],
+							sc[0][:pos]+"&#"+zeros+fmt.Sprintf("%d", c)+";"+sc[0][pos+1:]+sc[1])
+					}
+				}
+				if strings.Contains(k.tmpl, "<§>") { // spaces are legal inside <...> destinations only
+					for z := 1; z <= maxP; z++ {
+						urls = append(urls, strings.Repeat(" ", z)+sc[0]+sc[1], strings.Repeat("\x01", z)+sc[0]+sc[1])
+					}
+				}
+			}
+			s := r.Sub("obf-ladder-"+k.name, fmt.Sprintf("construct %q with § replaced by 4 dangerous payloads whose first letter or colon is a hexadecimal (x and X) or decimal reference padded with EVERY number 0..%d of leading zeros (and, inside <...>, prefixed by every number 1..%d of spaces or U+0001), under %s; same oracle", k.tmpl, maxP, maxP, cfg))
+			s.Planned = int64(len(urls))
+			s.Bound = fmt.Sprintf("padding 0..%d: %d URLs", maxP, len(urls))
+			core.ForEachIndex(len(urls), nw, func(w int) func(int) {
+				cv := core.NewConv(cfg)
+				var doc []byte
+				return func(i int) {
+					doc = doc[:0]
+					for j, p := range parts {
+						if j > 0 {
+							doc = append(doc, urls[i]...)
+						}
+						doc = append(doc, p...)
+					}
+					out := c04Case(s, cv, doc, k.name)
+					s.Evals.Add(1)
+					if strings.Contains(string(out), "href=") || strings.Contains(string(out), "src=") {
+						s.Distinct(core.Hash(out))
+					}
+					if i%(len(urls)/4+1) == 0 {
+						s.AddSample(core.Clip(core.Q(doc), 200))
+					}
+				}
+			}, r.Expired)
+			s.States.Store(s.Evals.Load())
+			s.Transitions.Store(s.Evals.Load())
+			s.Done()
+		}
+	}
 	// (2) free URL words in every construct
 	n := core.Pick(r, 3, 4)
 	for _, k := range urlConstructs {
